@@ -226,22 +226,25 @@ Section Rider.
           split; [intros o' E'; discriminate | apply cr_same; exact (ed_supply _ _ _ Ed)].
         * rewrite (sf_ref _ _ _ _ _ _ _ t Hv Hr Hb).
           assert (Hok : hok 0 ND s o) by (split; [lia | exists ob; split; [exact Ho | intros []]]).
-          destruct (follow_inv 0 base ND (S (N.to_nat (supply s))) s o I Hok) as (s1 & fr & E & I1 & Hfr).
-          destruct (follow_qt 0 base ND (S (N.to_nat (supply s))) s o I K Hok Hsc) as (Q1 & K1 & Hh1).
+          destruct (follow_inv 0 base ND (S (N.to_nat (supply s))) s o k I Hok) as (s1 & fr & E & I1 & Hfr).
+          destruct (follow_qt 0 base ND (S (N.to_nat (supply s))) s o k I K Hok Hsc) as (Q1 & K1 & Hh1).
           rewrite E in *. cbn [fst snd] in *.
-          destruct fr as [o'|e|e]; [| | contradiction].
-          -- destruct (hupd_qt s1 o' (upd_req s1 q) (fun _ => eq_refl) K1) as [Q2 K2].
+          destruct fr as [[o' lk']|e|e]; [| | contradiction].
+          -- (* the last key followed is the ID of the object reached *)
+             destruct (follow_key 0 base ND _ _ _ _ _ _ _ I (ex_intro _ ob (conj Ho Hid)) E) as (obk & Hok' & Hidk).
+             subst lk'.
+             destruct (hupd_qt s1 o' (upd_req s1 q) (fun _ => eq_refl) K1) as [Q2 K2].
              do 3 eexists. split; [reflexivity|]. split; [|split; [|split]].
              ++ eapply G_qt; [apply inv_hupd; [exact I1 | reflexivity] | exact K2 | exact (qt_trans _ _ _ Q1 Q2) | exact Hg].
              ++ apply nc_qt. exact (qt_trans _ _ _ Q1 Q2).
-             ++ intros o2 E2. injection E2 as <-. pose proof (Hh1 o' eq_refl) as Hh'.
-                split; [eapply hg_qt; eassumption|]. destruct Hh' as (ob' & Ho' & _). rewrite Ho'.
-                exists (o_id ob'). split; [|right; left; reflexivity].
+             ++ intros o2 E2. injection E2 as <-. pose proof (Hh1 o' _ eq_refl) as Hh'.
+                split; [eapply hg_qt; eassumption|]. destruct Hh' as (ob' & Ho' & _).
+                assert (ob' = obk) by congruence. subst ob'.
+                exists (o_id obk). split; [|right; left; reflexivity].
                 rewrite (hid_qt _ _ o' Q2); unfold hid; rewrite Ho'; [reflexivity | discriminate].
-             ++ destruct (Hh1 o' eq_refl) as (ob' & Ho' & _). rewrite Ho'.
-                apply cr_old; [rewrite hupd_supply; exact (qt_supply _ _ Q1)|].
-                destruct (i_fh _ _ _ _ _ I1 o' ob' (Nat.le_0_l o') Ho') as [Hkd _]. rewrite (qt_supply _ _ Q1) in Hkd.
-                destruct (o_id ob'); exact Hkd.
+             ++ apply cr_old; [rewrite hupd_supply; exact (qt_supply _ _ Q1)|].
+                destruct (i_fh _ _ _ _ _ I1 o' obk (Nat.le_0_l o') Hok') as [Hkd _]. rewrite (qt_supply _ _ Q1) in Hkd.
+                destruct (o_id obk); exact Hkd.
           -- do 3 eexists. split; [reflexivity|]. split; [eapply G_qt; eassumption|].
              split; [apply nc_qt; exact Q1|]. split; [intros o2 E2; discriminate | apply cr_same; exact (qt_supply _ _ Q1)].
       + assert (Hh : hg s o) by (exists ob; split; [exact Ho | split; [exact Hr | exact Hs]]).
